@@ -9,25 +9,27 @@
    All statements are for ALL share bytes (including the surplus shares of the 4-share container), ALL data bytes and
    ALL random words; the integer arguments size/offset are enumerated over their documented range.
 
-   Value functions (printed in every obligation's fo_post / fo_spec):
+   Only the programs (fo_prog) and the descriptors come from the translator; observation and specification are
+   Obl/MWordSpec.std_post / std_spec of the descriptor (hand-written; the copies printed as fo_post / fo_spec are checked to be
+   syntactically those), and the tables must contain the hand-written lists req_toolkit / req_keys / req_states / req_ops / req_x1.
+   Value functions (Obl/MWordSpec.mval64, mval32):
      c64, x86-64 : logical share j = rotl_{11j} S[j],                                         value = XOR of logical shares
      c32         : logical share j = WInterleave (rotl_{5j} W[2j]) (rotl_{5j} W[2j+1]),       value = XOR of logical shares
    Fresh randomness: one unit per fresh share = one 64-bit word or two consecutive 32-bit words; where an obligation
    says "logical share j = J(unit)", J is a fixed bijection (identity, byte swap, rotation by 8*size, the pair as
    even/odd planes or as high/low halves, possibly rotated by 5j) named in build/kern/mword2.json. *)
 From Coq Require Import List Arith Bool NArith Lia. Import ListNotations.
-From AsconV Require Import Sym.Wexpr Sym.Pipe Obl.FnObl Obl.FnOblParts Gen.MW2_index Gen.MW2_c32_ops2 Gen.MW2_c32_mark.
+From AsconV Require Import Sym.Wexpr Sym.Pipe Obl.FnObl Obl.FnOblParts Obl.MWordCover Gen.MW2_index Gen.MW2_c32_ops2 Gen.MW2_c32_mark.
 
-Definition fn_correct (o : fn_obl) : Prop :=
-  forall v : list (list bool), widths_of v = fo_widths o ->
-  run BoolAlg (run BoolAlg v (fo_prog o)) (fo_post o) = run BoolAlg v (fo_spec o).
+(* Obl/FnObl.table_correct tab reqs (see Properties_C10.v): every obligation of the table meets the hand-written specification
+   of its descriptor for ALL inputs, and every requirement of the hand-written list has an obligation in the table. *)
 
 (* 32-bit toolkit, n = 2,3,4.  load: value = the 8 data bytes (big endian), logical share j >= 1 = its own fresh unit,
    surplus shares 0.  store: the bytes of the value.  randomize (distinct and in place): value kept, logical share
    j >= 1 moved by its own fresh unit, share 0 by the XOR of the units, surplus shares untouched.  xor: value = XOR of
    the values.  xN_from_xM (distinct and in place): value kept, surplus shares of the result 0. *)
-Theorem C10_word_toolkit_c32 : forall o, In o (concat mw2_c32_toolkit_parts) -> fn_correct o.
-Proof. exact (fn_obl_sound_parts _ mw2_c32_toolkit_ok). Qed.
+Theorem C10_word_toolkit_c32 : table_correct (concat mw2_c32_toolkit_parts) (req_toolkit B32 4 true).
+Proof. exact (table_sound_parts _ _ mw2_c32_toolkit_ok mw2_c32_toolkit_covers). Qed.
 Print Assumptions C10_word_toolkit_c32.
 
 (* masked keys over the 32-bit toolkit, KEY_SHARES = 2,3,4: ascon_masked_key_{128,160}_init gives words whose values are
@@ -35,8 +37,8 @@ Print Assumptions C10_word_toolkit_c32.
    _randomize_with_trng keeps every value and moves every share of every word by its own fresh unit.
    Masked states over the 32-bit toolkit: ascon_xN_randomize (same statement per word), ascon_xN_copy_from_xM (distinct
    and in place) keeps the five values. *)
-Theorem C10_masked_keys_states_c32 : forall o, In o (concat mw2_c32_keys_states_parts) -> fn_correct o.
-Proof. exact (fn_obl_sound_parts _ mw2_c32_keys_states_ok). Qed.
+Theorem C10_masked_keys_states_c32 : table_correct (concat mw2_c32_keys_states_parts) (req_keys B32 ++ req_states B32 4).
+Proof. exact (table_sound_parts _ _ mw2_c32_keys_states_ok mw2_c32_keys_states_covers). Qed.
 Print Assumptions C10_masked_keys_states_c32.
 
 (* the remaining word operations, n = 2,3,4:
@@ -49,21 +51,21 @@ Print Assumptions C10_masked_keys_states_c32.
      pad o           : o = 0..7 : for n = 2,3,4 alike: value xor 0x80 at byte o from the top; bytes of the other shares untouched
      separator       : value xor 1
    (size/offset 8 is outside the documented range: a shift by the full width in the C files) *)
-Theorem C10_word_ops_c64 : forall o, In o (concat mw2_c64_ops_parts) -> fn_correct o.
-Proof. exact (fn_obl_sound_parts _ mw2_c64_ops_ok). Qed.
+Theorem C10_word_ops_c64 : table_correct (concat mw2_c64_ops_parts) (req_ops B64 4).
+Proof. exact (table_sound_parts _ _ mw2_c64_ops_ok mw2_c64_ops_covers). Qed.
 Print Assumptions C10_word_ops_c64.
-Theorem C10_word_ops_c32 : forall o, In o (concat mw2_c32_ops_parts) -> fn_correct o.
-Proof. exact (fn_obl_sound_parts _ mw2_c32_ops_ok). Qed.
+Theorem C10_word_ops_c32 : table_correct (concat mw2_c32_ops_parts) (req_ops B32 4).
+Proof. exact (table_sound_parts _ _ mw2_c32_ops_ok mw2_c32_ops_covers). Qed.
 Print Assumptions C10_word_ops_c32.
-Theorem C10_word_ops_x86_64_asm : forall o, In o (concat mw2_x86_ops_parts) -> fn_correct o.
-Proof. exact (fn_obl_sound_parts _ mw2_x86_ops_ok). Qed.
+Theorem C10_word_ops_x86_64_asm : table_correct (concat mw2_x86_ops_parts) (req_ops B64 4).
+Proof. exact (table_sound_parts _ _ mw2_x86_ops_ok mw2_x86_ops_covers). Qed.
 Print Assumptions C10_word_ops_x86_64_asm.
 
 (* ascon_xN_copy_from_x1: the five values are the five words of the unmasked state (in the layout of the unmasked backend of
    the same build: uint64_t S[5] / uint32_t W[10] even-odd), every share j >= 1 of every word its own fresh unit;
    ascon_xN_copy_to_x1: the unmasked state afterwards holds the five values *)
-Theorem C10_state_x1 : forall o, In o (concat mw2_x1_parts) -> fn_correct o.
-Proof. exact (fn_obl_sound_parts _ mw2_x1_ok). Qed.
+Theorem C10_state_x1 : table_correct (concat mw2_x1_parts) (req_x1 B32 false 4 ++ req_x1 B64 false 4).
+Proof. exact (table_sound_parts _ _ mw2_x1_ok mw2_x1_covers). Qed.
 Print Assumptions C10_state_x1.
 
 Example C10_words_coverage :
